@@ -43,6 +43,7 @@ def main(argv=None):
             return 1
         ctx = core.Ctx(pid, a.tier, seed, level=getattr(mod, "LEVEL", "exploration"))
         mod.run(ctx)
+        core.replay_regressions(ctx, mod.replay)
         return ctx.finish()
     except core.HarnessError as e:
         print("harness error: %s" % e, file=sys.stderr)
